@@ -2,7 +2,7 @@
    Histories are ARBITRARY lists of operations on one compressor / decompressor instance; byte
    strings are arbitrary.  The third-party codec is ANY reader / writer object with a view
    function satisfying the contract of C20_Spec.v (lib_contract / wlib_contract). *)
-From V Require Import C20_Spec C20_Proofs C20_Proofs2 C20_Names C20_Consts.
+From V Require Import C20_Spec C20_Proofs C20_Proofs2 C20_Names C20_Consts C20_Pair.
 Open Scope N_scope.
 
 (* Session independence, for each of the six encodings: whatever was done to the instance before
@@ -346,3 +346,24 @@ Example ex_observe :
           (trun KGzip [DClose; DReset [0]; DRead None; DReset (2 :: x); DReadN 2; DRead None; DReset (toy_enc x); DReadN 2; DRead None; DClose])
   = [PAny; PFullU UErr; PAny; PFullU UOk; PAny; PAny; PFullU UOk; PFlag true; PFlag true; PFullU UOk].
 Proof. vm_compute. reflexivity. Qed.
+
+(* ---------- fourth wave: two instances from the same constructor ---------- *)
+(* For ANY step function, ANY two states and ANY interleaving of the operations of two users: what each user
+   observes of its instance is what it observes running its operations alone - operations on instance B never
+   show on instance A.  (A place that handed both users ONE object would not be a pair machine: the harness
+   compares every place that hands out instances with it.) *)
+Theorem instances_independent : forall (pst pop pout : Type) (pstep : pst -> pop -> pst * list pout)
+  (h : list (bool * pop)) (sa sb : pst),
+  of_inst false (inst_run2 _ _ _ pstep sa sb h) = inst_run1 _ _ _ pstep sa (of_inst false h) /\
+  of_inst true (inst_run2 _ _ _ pstep sa sb h) = inst_run1 _ _ _ pstep sb (of_inst true h).
+Proof. exact instances_independent_proof. Qed.
+Print Assumptions instances_independent.
+
+(* instantiated with the history machine of c20.hist / c20.trhist: for any two histories and any schedule the
+   results are those of the two histories run alone (so every theorem above holds per instance of a pair) *)
+Theorem pair_is_two_single_runs : forall k sched a b h ra rb,
+  merge_sched sched a b = Some h -> h_run k (h_init k) a = Some ra -> h_run k (h_init k) b = Some rb ->
+  let r := inst_run2 _ _ _ (h_step1 k) (Some (h_init k)) (Some (h_init k)) h in
+  houts (of_inst false r) = Some ra /\ houts (of_inst true r) = Some rb.
+Proof. exact pair_is_two_single_runs_proof. Qed.
+Print Assumptions pair_is_two_single_runs.
